@@ -359,6 +359,7 @@ pub enum AliasSyntaxError {
     ExpectedMatrix      (AliasToken),
     ExpectedArrow       (AliasToken),
     UnknownGroup        (AliasToken),
+    ToneTooBig          (AliasToken),
     UnknownIPA          (AliasToken),
     DiacriticDoesNotMeetPreReqsFeat(AliasPosition, AliasPosition, String, bool),
     DiacriticDoesNotMeetPreReqsNode(AliasPosition, AliasPosition, String, bool),
@@ -398,6 +399,7 @@ impl ASCAError for AliasSyntaxError {
             Self::ExpectedMatrix      (token) => format!("Expected '[', but received '{}' @ {}.", if token.kind == AliasTokenKind::Eol {"End Of Line"} else {&token.value}, token.position),
             Self::ExpectedArrow       (token) => format!("Expected '>', '->' or '=>', but received '{}' @ {}.", token.value, token.position),
             Self::UnknownGroup        (token) => format!("Unknown grouping '{}'. Known groupings are (C)onsonant, (O)bstruent, (S)onorant, (P)losive, (F)ricative, (L)iquid, (N)asal, (G)lide, and (V)owel @ {}.", token.value, token.position),
+            Self::ToneTooBig          (token) => format!("A tone modifier cannot be more than 4 digits long @ {}.", token.position),
             Self::UnknownIPA          (token) => format!("Could not get value of IPA '{}' @ {}.", token.value, token.position),
             Self::DiacriticDoesNotMeetPreReqsFeat(.., t, pos) |
             Self::DiacriticDoesNotMeetPreReqsNode(.., t, pos) => {
@@ -444,6 +446,7 @@ impl ASCAError for AliasSyntaxError {
             Self::ExpectedEndLine     (token) |
             Self::ExpectedMatrix      (token) |
             Self::ExpectedArrow       (token) |
+            Self::ToneTooBig          (token) |
             Self::UnknownGroup        (token) |
             Self::UnknownIPA          (token) |
             Self::UnexpectedEol       (token, _) => (
